@@ -94,6 +94,8 @@ type Model struct {
 	// Gone remembers ids that were removed (acked, deleted, pruned, evicted):
 	// they must never reappear unless enqueued again.
 	Gone map[string]string
+	// Reused: ids that were stored, removed, and stored again.
+	Reused map[string]bool
 
 	// pending freedoms for the next CompareListing
 	sweepAllowed bool
@@ -121,7 +123,7 @@ func NewModel(cfg QConfig) *Model {
 	if cfg.DropPolicy == "" {
 		cfg.DropPolicy = "reject"
 	}
-	return &Model{Cfg: cfg, Msgs: map[string]*Msg{}, Lease: map[string]string{}, Gone: map[string]string{}}
+	return &Model{Cfg: cfg, Msgs: map[string]*Msg{}, Lease: map[string]string{}, Gone: map[string]string{}, Reused: map[string]bool{}}
 }
 
 func (m *Model) sorted() []*Msg {
@@ -167,6 +169,15 @@ func (m *Model) pruneEligible(x *Msg, now time.Time) bool {
 		return false
 	}
 	return false
+}
+
+// pruneEligibleIfSwept: an expired lease that a dequeue releases becomes a
+// queued message, which retention may then remove within the same call.
+func (m *Model) pruneEligibleIfSwept(x *Msg, now time.Time) bool {
+	if x.State != queue.StateLeased || x.LeaseUntil.After(now) || !m.Cfg.pruneConfigured() {
+		return false
+	}
+	return m.Cfg.RetentionMaxAge > 0 && !x.ReceivedAt.After(now.Add(-m.Cfg.RetentionMaxAge))
 }
 
 func (m *Model) prunableQueued(now time.Time) int {
@@ -307,6 +318,9 @@ func (m *Model) insert(x *Msg) {
 		return
 	}
 	m.Msgs[x.ID] = x
+	if _, was := m.Gone[x.ID]; was {
+		m.Reused[x.ID] = true
+	}
 	delete(m.Gone, x.ID)
 }
 
@@ -428,16 +442,31 @@ func (m *Model) Enqueue(now time.Time, envs []queue.Envelope, batch bool, n int,
 			if old, ok := m.Msgs[e.ID]; ok {
 				// Legal only if the holder of the id was itself the drop_oldest
 				// victim that made room (evicted first, then the id is free).
-				if old.State == queue.StateQueued && evictHi > 0 && m.oldestQueued(old) {
+				if m.pruneEligible(old, now) {
+					// retention removed the holder before the insert
 					delete(m.Msgs, old.ID)
+					m.Gone[old.ID] = "pruned"
+					m.Stats.PrunesAdopted++
+				} else if old.State == queue.StateQueued && evictHi > 0 && m.amongOldestQueued(old, evictHi) {
+					delete(m.Msgs, old.ID)
+					m.Gone[old.ID] = "evicted"
 					m.Stats.EvictionsSeen++
 					evictHi--
 					if evictLo > 0 {
 						evictLo--
 					}
 				} else {
-					vs = append(vs, viol("C12.admitted.duplicate", "C12,C02,C15", "%s accepted id %s although a message with that id exists (%s)", op, e.ID, old.State))
-					continue
+					vs = append(vs, viol("C12.admitted.duplicate", "C12,C02,C15", "%s accepted id %s although a message with that id exists (%s) and is not the oldest queued message", op, e.ID, old.State))
+					// adopt what happened (the old message is gone, the new one
+					// is stored) so that one defect is reported once
+					delete(m.Msgs, old.ID)
+					m.Gone[old.ID] = "replaced"
+					if old.State == queue.StateQueued && evictHi > 0 {
+						evictHi--
+						if evictLo > 0 {
+							evictLo--
+						}
+					}
 				}
 			}
 		}
@@ -447,22 +476,22 @@ func (m *Model) Enqueue(now time.Time, envs []queue.Envelope, batch bool, n int,
 	return vs
 }
 
-// oldestQueued: is x an acceptable drop_oldest victim right now (no queued
-// message is older both by insertion and by received_at)?
-func (m *Model) oldestQueued(x *Msg) bool {
-	bySeq, byRecv := true, true
+// amongOldestQueued: is x one of the k oldest queued messages (by insertion
+// order or by received_at), i.e. an acceptable drop_oldest victim?
+func (m *Model) amongOldestQueued(x *Msg, k int) bool {
+	olderSeq, olderRecv := 0, 0
 	for _, y := range m.Msgs {
 		if y == x || y.State != queue.StateQueued {
 			continue
 		}
 		if y.Seq < x.Seq {
-			bySeq = false
+			olderSeq++
 		}
 		if y.ReceivedAt.Before(x.ReceivedAt) {
-			byRecv = false
+			olderRecv++
 		}
 	}
-	return bySeq || byRecv
+	return olderSeq < k || olderRecv < k
 }
 
 type dequeueSets struct {
@@ -515,9 +544,11 @@ func (m *Model) Dequeue(now time.Time, req queue.DequeueRequest, resp queue.Dequ
 		case queue.StateLeased:
 			if !x.LeaseUntil.After(now) {
 				may[x.ID] = true
-				mustIfSwept[x.ID] = true
-				if !x.LeaseUntil.After(now.Add(-grace)) {
-					must[x.ID] = true
+				if !m.pruneEligibleIfSwept(x, now) {
+					mustIfSwept[x.ID] = true
+					if !x.LeaseUntil.After(now.Add(-grace)) {
+						must[x.ID] = true
+					}
 				}
 			}
 		}
@@ -1057,7 +1088,7 @@ func (m *Model) CompareListing(now time.Time, opDesc string, items []queue.Envel
 		}
 	}
 	if len(vanished) > 0 {
-		vs = append(vs, m.explainVanished(now, opDesc, vanished, obs, evictMin, evictMax)...)
+		vs = append(vs, m.explainVanished(now, opDesc, vanished, obs, evictMin, evictMax, sweepAllowed)...)
 	} else if evictMin > 0 {
 		vs = append(vs, viol("C12.depth.exceeded", "C12", "after %s: %d eviction(s) were needed to admit the message(s) but nothing was evicted", opDesc, evictMin))
 	}
@@ -1105,7 +1136,7 @@ func (m *Model) CompareListing(now time.Time, opDesc string, items []queue.Envel
 	return vs
 }
 
-func (m *Model) explainVanished(now time.Time, opDesc string, vanished []*Msg, obs map[string]queue.Envelope, evictMin, evictMax int) []Violation {
+func (m *Model) explainVanished(now time.Time, opDesc string, vanished []*Msg, obs map[string]queue.Envelope, evictMin, evictMax int, sweepAllowed bool) []Violation {
 	var vs []Violation
 	// survivors in the dead state, for the DLQ depth rule
 	var deadSurvivors []*Msg
@@ -1124,7 +1155,7 @@ func (m *Model) explainVanished(now time.Time, opDesc string, vanished []*Msg, o
 	var unexplained []*Msg // not prunable: must be evictions
 	var prunableEvictable int
 	for _, x := range vanished {
-		prunable := m.pruneEligible(x, now)
+		prunable := m.pruneEligible(x, now) || (sweepAllowed && m.pruneEligibleIfSwept(x, now))
 		if !prunable && x.State == queue.StateDead && m.Cfg.pruneConfigured() && m.Cfg.DLQMaxDepth > 0 {
 			newer := 0
 			for _, s := range deadSurvivors {
